@@ -14,6 +14,8 @@ DEFAULT_KNOBS = {
     "nest": True,            # @media / @supports nesting
 }
 
+RELATED_NAMES = ["--text", "--text-muted", "--text-muted-2", "--brand", "--brand-dark", "--c", "--c-1", "--c-1-x", "--bg", "--bg-alt", "--a_b", "--a_b-c"]
+
 CARRY_RULES = [
     '@charset "utf-8";',
     '@import url("base;{x}.css") screen and (orientation: landscape);',
@@ -95,7 +97,13 @@ def sheet(draw, knobs=None, max_rules=7):
 
     def new_var(value, scope_hint=None):
         var_counter[0] += 1
-        name = f"--v{var_counter[0]}" + draw(st.sampled_from(["", "-text", "_c", "-Ünï".lower()]))
+        taken = {n for n, _ in var_defs}
+        free = [n for n in RELATED_NAMES if n not in taken]
+        if free and draw(st.booleans()):
+            # names that are prefixes / hyphenated extensions of one another (--text, --text-muted, ...)
+            name = draw(st.sampled_from(free))
+        else:
+            name = f"--v{var_counter[0]}" + draw(st.sampled_from(["", "-text", "_c", "-Ünï".lower()]))
         var_defs.append((name, value))
         return name
 
